@@ -520,11 +520,11 @@ fn run(args: &Args) -> i32 {
                 let mut cross = false;
                 let updates = if kind == 6 {
                     // the last case: IPv6 a00::/8 against the IPv4 holding 10.0.0.0/8, through the whole command path
+                    // (regression case of finding F05a: must be refused as not held)
                     RoaConfigurationUpdates { added: vec![RoaConfiguration::from_str("a00::/8 => 64512").unwrap()], removed: vec![] }
                 } else {
                     let mut d = Dist::default();
-                    let mut u = RoaGen { blocks: &live_blocks, state: &state }.gen_delta(&mut rng, 3, &mut d, &mut cross);
-                    if cross { u.added.retain(|c| strict_held(&live_ranges, &c.payload)); }
+                    let u = RoaGen { blocks: &live_blocks, state: &state }.gen_delta(&mut rng, 3, &mut d, &mut cross);
                     for (k, v) in d.0 { *gen_dist.0.entry(format!("e2e-{k}")).or_default() += v; }
                     u
                 };
